@@ -104,7 +104,16 @@ class Session:
             if not known or kind not in ("method", "function", "property"):
                 return False
             q = name if kind != "property" else (f"{cls.qualname}.{name}" if cls is not None else name)
-            return q.startswith(self.prog.package + ".") and q not in known
+            if not (q.startswith(self.prog.package + ".") and q not in known):
+                return False
+            if cls is not None and kind in ("method", "property"):
+                # a method that existed under this name in a subclass or a superclass was moved along the hierarchy (pulled up / pushed
+                # down), not introduced: it keeps the treatment the rule gives the method of that name
+                short = q.rsplit(".", 1)[-1]
+                for c in self.prog.classes.values():
+                    if c is not cls and f"{c.qualname}.{short}" in known and (self.prog.is_subclass(c, cls) or self.prog.is_subclass(cls, c)):
+                        return False
+            return True
         b = Builder(self.prog, inline=with_new_helpers, **kw)
         self.builders.append(b)
         return b
